@@ -112,6 +112,58 @@ def module_value_reads(repo):
             if d:
                 memos[q] = d
     repo._incomplete_memos = memos
+    # a new attribute that a method fills on demand from other attributes of self, and a sibling method that re-assigns / updates one of
+    # those attributes without touching the remembered value
+    confirmed_attrs = set()
+    for r_ in ref.values():
+        for n in ast.walk(ast.parse(r_["src"])):
+            if isinstance(n, ast.Attribute):
+                confirmed_attrs.add(n.attr)
+            if isinstance(n, ast.Constant) and isinstance(n.value, str) and n.value.isidentifier():
+                confirmed_attrs.add(n.value)
+    MUT = ("append", "extend", "insert", "pop", "remove", "clear", "update", "sort", "reverse", "setdefault")
+    stale = {}
+    for cq, ci in repo.classes.items():
+        methods = [(nm, ent[1]) for nm, ent in ci.methods.items()]
+        for nm, fn in methods:
+            fills = {}
+            for n in ast.walk(fn):
+                if isinstance(n, ast.Assign) and len(n.targets) == 1 and isinstance(n.targets[0], ast.Attribute) and isinstance(n.targets[0].value, ast.Name) \
+                        and n.targets[0].value.id == "self" and n.targets[0].attr not in confirmed_attrs:
+                    x = n.targets[0].attr
+                    val = n.value
+                    if isinstance(val, ast.Name):          # self.X = local; local = <expr>
+                        for m_ in ast.walk(fn):
+                            if isinstance(m_, ast.Assign) and len(m_.targets) == 1 and isinstance(m_.targets[0], ast.Name) and m_.targets[0].id == val.id \
+                                    and not (isinstance(m_.value, ast.Call) and ast.unparse(m_.value.func) == "getattr"):
+                                val = m_.value
+                    reads_back = any((isinstance(m_, ast.Attribute) and m_.attr == x and isinstance(m_.ctx, ast.Load) and isinstance(m_.value, ast.Name) and m_.value.id == "self")
+                                     or (isinstance(m_, ast.Constant) and m_.value == x) for m_ in ast.walk(fn))
+                    srcs = {m_.attr for m_ in ast.walk(val) if isinstance(m_, ast.Attribute) and isinstance(m_.value, ast.Name) and m_.value.id == "self"
+                            and isinstance(m_.ctx, ast.Load) and m_.attr != x}
+                    if reads_back and srcs and not (isinstance(val, ast.Constant)):
+                        fills[x] = srcs
+            for x, srcs in fills.items():
+                for nm2, fn2 in methods:
+                    if fn2 is fn or nm2 == "__init__":
+                        continue
+                    touched = set()
+                    for n in ast.walk(fn2):
+                        if isinstance(n, ast.Attribute) and isinstance(n.value, ast.Name) and n.value.id == "self" and n.attr in srcs:
+                            par = getattr(n, "_parent", None)
+                            if isinstance(n.ctx, (ast.Store, ast.Del)):
+                                touched.add(n.attr)
+                            elif isinstance(par, ast.Attribute) and par.attr in MUT and isinstance(getattr(par, "_parent", None), ast.Call) and par._parent.func is par:
+                                touched.add(n.attr)
+                            elif isinstance(par, ast.Subscript) and isinstance(par.ctx, (ast.Store, ast.Del)) and par.value is n:
+                                touched.add(n.attr)
+                            elif isinstance(par, ast.AugAssign) and par.target is n:
+                                touched.add(n.attr)
+                    resets = any(isinstance(n, ast.Attribute) and n.attr == x and isinstance(n.ctx, (ast.Store, ast.Del)) for n in ast.walk(fn2)) \
+                        or any(isinstance(n, ast.Constant) and n.value == x for n in ast.walk(fn2))
+                    if touched and not resets:
+                        stale.setdefault(f"{cq}.{nm2}", []).append((x, sorted(touched), nm))
+    repo._stale_caches = stale
     return out
 
 
@@ -185,6 +237,16 @@ def new_guard_rule(ctx, prop):
             n += 1
             ctx.bad(rid6, q0, "a remembered result is only reused for a call that would compute the same thing",
                     f"`{table}[{key}]` is reused whatever the value of parameter `{p_}`, which the computation reads", key_detail=f"memo {table} misses {p_}"[:80], pointed=True)
+    rid7 = f"R{prop[1:]}t"
+    ctx.rule(rid7, "a value that an anchored class newly remembers, computed from attributes of self, is dropped by every method that re-assigns or updates those attributes "
+             "(generic rule; positive evidence, not gated)", kind="N")
+    for q, items in sorted((getattr(ctx.repo, "_stale_caches", None) or {}).items()):
+        if q.rsplit(".", 1)[0] not in classes and not any(c == q or c.startswith(q + ".") for c in anchored):
+            continue
+        for x, touched, filler in items:
+            n += 1
+            ctx.bad(rid7, q, "no method leaves a remembered value behind when it changes what the value was computed from",
+                    f"changes self.{', self.'.join(touched)} but keeps self.{x} (filled on demand by {filler} from it)", key_detail=f"stale {x} after {','.join(touched)}"[:80], pointed=True)
     return n
 
 
